@@ -15,7 +15,7 @@
    generation and bundles are not modelled: decided per run by the strict-content
    round-trip oracle (partial). *)
 From Coq Require Import String List ZArith.
-From Prov Require Import Str Sexp Tables Nsm NsmProofs Values Record World JsonProofs Xml XmlProofs IsoProofs TimeProofs XmlLabel XmlLabelProofs XmlRec XmlRead IdemProofs JsonRecProofs XmlRecProofs XmlReadProofs.
+From Prov Require Import Str Sexp Tables Nsm NsmProofs Values Record World JsonProofs XmlSpec Xml XmlProofs IsoProofs TimeProofs XmlLabel XmlLabelProofs XmlRec XmlRead IdemProofs JsonRecProofs XmlRecProofs XmlReadProofs Scope ScopeProofs XmlScope XmlScopeProofs.
 Import ListNotations.
 Open Scope string_scope.
 
@@ -166,3 +166,72 @@ Example C02_record_roundtrip_applies :
     brecs b' = [mkRec "Agent" (Some (w_q "g"))
                   [(prov_qn "label", [VStr "lab"]); (w_q "k", [VInt 5]); (prov_qn "type", [VQn (prov_qn "Person")])]].
 Proof. exact xml_record_roundtrip_applies. Qed.
+
+(* ---- a whole container: the elements written for its records (each as in C02_record_roundtrip: rec_back collects that
+   theorem's premises and names the record read back), read one after the other by the loop of deserialize_subtree,
+   append exactly those records, in order, to the container; its manager and identifier are untouched *)
+Theorem C02_container_roundtrip : forall par ft fl prefix_of scope (items : list (string * option qname * list (qname * value) * xnode * prec)) b,
+  Builtins (bns b) ->
+  Forall (fun it => match it with (kind, ident, pairs, x, r') =>
+                      rec_back par ft fl prefix_of (bns b) scope kind ident pairs x r' end) items ->
+  exists b', xml_read_records par ft prefix_of b (map (fun it => snd (fst it)) items) = (b', OK tt) /\
+             bns b' = bns b /\ bid b' = bid b /\
+             brecs b' = (brecs b ++ map (fun it => snd it) items)%list.
+Proof. exact xml_container_roundtrip. Qed.
+Print Assumptions C02_container_roundtrip.
+
+(* ---- the scope of a container's element (XmlScope.nsmap_of: the prefix map serialize_bundle attaches to the document
+   element and to each bundleContent element; tied to lxml's nsmap of the written elements on every run).  What a
+   container's manager binds is read back, in that scope, as exactly the name — the premise `scoped scope q` of
+   C02_record_roundtrip.  InvR (registered namespaces and prefix table agree; registered prefixes are never prov, xsd,
+   xsi) holds for every manager of every namespace history (C02_reachable_managers_registered). *)
+Theorem C02_scope_own : forall dm bm n l, InvR dm -> InvR bm ->
+  tbound bm n -> lookup (ns_prefix n) default_namespaces = None ->
+  contains_char colon (ns_prefix n) = false -> plain_uri (ns_uri n) ->
+  scoped (nsmap_of dm bm) (mkQn n l).
+Proof. exact scope_own. Qed.
+Print Assumptions C02_scope_own.
+
+(* a name of the enclosing document inside a bundle that does not register that prefix itself (a bundle that does is
+   the situation of finding C02-F1) *)
+Theorem C02_scope_inherited : forall dm bm n l, InvR dm -> InvR bm ->
+  tbound dm n -> lookup (ns_prefix n) default_namespaces = None -> lookup (ns_prefix n) (regd bm) = None ->
+  contains_char colon (ns_prefix n) = false -> plain_uri (ns_uri n) ->
+  scoped (nsmap_of dm bm) (mkQn n l).
+Proof. exact scope_inherited. Qed.
+
+Theorem C02_scope_prov : forall dm bm l, InvR dm -> InvR bm -> scoped (nsmap_of dm bm) (prov_qn l).
+Proof. exact scope_prov. Qed.
+Theorem C02_scope_xsd : forall dm bm l, InvR dm -> InvR bm -> scoped (nsmap_of dm bm) (xsd_qn l).
+Proof. exact scope_xsd. Qed.
+
+Theorem C02_scope_default_own : forall dm bm n l, dflt bm = Some n -> ns_prefix n = "" -> contains_char colon l = false ->
+  scoped (nsmap_of dm bm) (mkQn n l).
+Proof. exact scope_default_own. Qed.
+Theorem C02_scope_default_inherited : forall dm bm n l, InvR bm ->
+  dflt bm = None -> lookup "" (regd bm) = None -> dflt dm = Some n -> ns_prefix n = "" -> contains_char colon l = false ->
+  scoped (nsmap_of dm bm) (mkQn n l).
+Proof. exact scope_default_inherited. Qed.
+Print Assumptions C02_scope_default_inherited.
+
+(* and binds xsd as PROV-XML writes it: the premise XScope of the value-level theorems holds in the scope of every container *)
+Theorem C02_scope_xsd_bound : forall dm bm, InvR dm -> InvR bm -> XScope (nsmap_of dm bm).
+Proof. exact nsmap_XScope. Qed.
+
+Theorem C02_reachable_managers_registered : forall ops, SAll InvR (srun ops).
+Proof. exact srun_SAll_InvR. Qed.
+Theorem C02_reachable_scope_own : forall ops t m dm n l,
+  get_mgr (srun ops) t = Some m -> get_mgr (srun ops) None = Some dm ->
+  tbound m n -> lookup (ns_prefix n) default_namespaces = None ->
+  contains_char colon (ns_prefix n) = false -> plain_uri (ns_uri n) ->
+  scoped (nsmap_of dm m) (mkQn n l).
+Proof. exact reachable_scope_own. Qed.
+Print Assumptions C02_reachable_scope_own.
+
+Example C02_scope_applies :
+  let s := srun [OAddNs None "ex" "http://e/"; ONewBundle; OAddNs (Some 0) "ex2" "http://e2/"] in
+  exists dm bm, get_mgr s None = Some dm /\ get_mgr s (Some 0) = Some bm /\
+    scoped (nsmap_of dm bm) (mkQn (mkNs "ex2" "http://e2/") "x") /\
+    scoped (nsmap_of dm bm) (mkQn (mkNs "ex" "http://e/") "y") /\
+    scoped (nsmap_of dm dm) (mkQn (mkNs "ex" "http://e/") "y").
+Proof. exact scope_applies. Qed.
